@@ -411,13 +411,24 @@ impl HuginnNetTls {
         let mut pcap_reader = PcapReader::new(file)
             .map_err(|e| HuginnNetTlsError::Parse(format!("Failed to create PCAP reader: {e}")))?;
 
+        // A capture file is read sequentially: after a record that cannot be read the reader stays
+        // where it is and fails again on every call, so the first read error ends the input.
+        let mut failed = false;
         self.process_with(
-            move || match pcap_reader.next_packet() {
-                Some(Ok(packet)) => Some(Ok(packet.data.to_vec())),
-                Some(Err(e)) => {
-                    Some(Err(HuginnNetTlsError::Parse(format!("Error reading PCAP packet: {e}"))))
+            move || {
+                if failed {
+                    return None;
                 }
-                None => None,
+                match pcap_reader.next_packet() {
+                    Some(Ok(packet)) => Some(Ok(packet.data.to_vec())),
+                    Some(Err(e)) => {
+                        failed = true;
+                        Some(Err(HuginnNetTlsError::Parse(format!(
+                            "Error reading PCAP packet: {e}"
+                        ))))
+                    }
+                    None => None,
+                }
             },
             sender,
             cancel_signal,
